@@ -70,6 +70,9 @@ var c14Start = time.Unix(c14T0-3600, 0).UTC()
 // timestamp (CreatedAt is the zero time); 3 timestamps decrease. Set per execution.
 var feedTimeScheme int
 
+// c14InMessage: value of IsEntityInMessage on the trips of the feeds (what the journal records does not depend on it)
+var c14NotInMessage bool
+
 func c14FeedTime(k int) time.Time {
 	switch feedTimeScheme {
 	case 1:
@@ -143,7 +146,7 @@ func c14FeedList(k, sym int, scheme int, stops []string) (*gtfs.Realtime, []spec
 		list = stops
 	}
 	trip := gtfs.Trip{ID: gtfs.TripID{ID: "063000_L..N01", RouteID: "L", DirectionID: gtfs.DirectionID_True, HasStartDate: true, StartDate: c14Start.Add(-6*time.Hour - 30*time.Minute),
-		HasStartTime: true, StartTime: 6*time.Hour + 30*time.Minute}, IsEntityInMessage: true}
+		HasStartTime: true, StartTime: 6*time.Hour + 30*time.Minute}, IsEntityInMessage: !c14NotInMessage}
 	if sym >= 2 {
 		trip.Vehicle = &gtfs.Vehicle{ID: &gtfs.VehicleID{ID: "veh1"}}
 	}
@@ -369,14 +372,15 @@ func c14Shallow(maxLen int) Harness {
 		}
 		scheme := c.Choose("value_scheme", 7)
 		feedTimeScheme = c.Choose("feed_time_scheme", 4)
-		defer func() { feedTimeScheme = 0 }()
+		c14NotInMessage = c.Choose("trips_not_backed_by_an_entity_of_their_own", 2) == 1
+		defer func() { feedTimeScheme = 0; c14NotInMessage = false }()
 		absent := scheme == 1
 		var names []string
 		for _, s := range syms {
 			names = append(names, symName(s))
 		}
 		hist := strings.Join(names, " ")
-		c.Input(hash64(hist+fmt.Sprint(scheme, feedTimeScheme)), n >= 2, func() string {
+		c.Input(hash64(hist+fmt.Sprint(scheme, feedTimeScheme, c14NotInMessage)), n >= 2, func() string {
 			return fmt.Sprintf("history: %s (value scheme %d: 0 unique per feed, 1 optional values absent, 2 times constant/track changes, 3 track constant/times change, 4 all constant; feed time scheme %d: 0 increasing, 1 all equal, 2 no timestamps, 3 decreasing)", hist, scheme, feedTimeScheme)
 		})
 		_ = absent
